@@ -109,6 +109,13 @@ class Session:
             shutil.rmtree(self.tmpdir, ignore_errors=True)
 
 
+def logical_contents(tf, workdir, ops, auto=True, storage_kwargs=None):
+    """what the database logically holds after `ops` (run to completion in a session of its own, read through the API)"""
+    outs = dbimpl.run_history(tf, True, auto, list(ops) + [("iter",)], workdir, storage_kwargs)
+    last = outs[-1]
+    return last[1] if last[0] == "points" else None
+
+
 def csv_only(kw):
     return {k: v for k, v in (kw or {}).items() if k in ("delimiter", "quotechar", "quoting")}
 
@@ -307,6 +314,14 @@ def io_cases(seed, n, kinds=None):
         kind = kinds[i % len(kinds)]
         j = r.randrange(1, g.ids) if g.ids > 1 else 1
         one = ("S", "tags", [("k", "id")], ("cmp", "==", ("s", str(j))))
+        if i % 4 == 1:
+            # the previous operations may leave rows that are logically stored but (if the library is wrong) not yet in the file
+            bad = [g.point(), g.point()]
+            bad.insert(r.randrange(1, 3), None)
+            hist.append(("insert", bad, None, "multiple"))
+        elif i % 4 == 3:
+            hist.append(("remove", ("S", "tags", [("k", "id")], ("cmp", "==", ("s", "nope"))), None))
+            hist.append(("insert", [g.point()], None))
         if kind == "insert":
             op = ("insert", [g.point()], r.choice([None, "m1"]))
         elif kind == "insert_multiple":
